@@ -123,6 +123,22 @@ def run_misuse(shard, tier, seed):
             judged('remove-non-child', cn, t, e3.remove, stranger)
             judged('replace-non-child', cn, t, e3.replace_child, stranger, lib.make(lib.child_cls(names[0])))
             judged('replace-with-non-element', cn, t, e.replace_child, k, 'x')
+            if check:
+                # offers that would close a parent cycle: the element itself, and an ancestor offered to its descendant; where
+                # they are refused, everything must still work afterwards (serialisation, level, root)
+                e4 = mk(xsd_check=True)
+                r4 = judged('add-self', cn, t, e4.add_child, e4)
+                if r4[0] == 'exc':
+                    judged('to_string-after-refused-self-offer', cn, t, e4.to_string)
+                    judged('get-root-after-refused-self-offer', cn, t, lambda: (e4.get_level(), e4.get_parent()))
+                e5 = mk(xsd_check=True)
+                k5 = lib.make(lib.child_cls(next((n for n in names if n not in ('link', 'opus', 'part-link')), names[0])), check=True)
+                if lib.call(e5.add_child, k5)[0] == 'ok':
+                    r5 = judged('add-ancestor-to-descendant', cn, t, k5.add_child, e5)
+                    if r5[0] == 'exc':
+                        judged('to_string-after-refused-ancestor-offer', cn, t, e5.to_string)
+                        judged('to_string-after-refused-ancestor-offer', cn, t, k5.to_string)
+                        judged('get-root-after-refused-ancestor-offer', cn, t, lambda: (e5.get_level(), k5.get_level()))
             judged('find-child', cn, t, e.find_child, 'XMLNope')
             judged('get-children', cn, t, e.get_children)
         c['classes'] += 1
